@@ -147,6 +147,22 @@ def run_scenario(sc, hooks=None):
     cl.coordinators[GROUP] = sc["brokers"][0]
     for f in sc["faults"]:
         cl.faults.add(f)
+    tr.quirks = {}
+
+    def metadata_quirks(ev):
+        if not tr.quirks:
+            return None
+        now = w.clock.seconds()
+        brokers, topics = cl.metadata_view(ev["req"]["topics"])
+        out = []
+        for (terr, name, parts) in topics:
+            q = tr.quirks.get(name)
+            if q is not None and now < q[0]:
+                out.append((5, name, [p for p in parts if p[1] in q[1]]))
+            else:
+                out.append((terr, name, parts))
+        return brokers, out
+    cl.metadata_override = metadata_quirks
     by_client = {}
 
     def emit(member, kind, **data):
@@ -280,6 +296,20 @@ def _apply_event(tr, e):
         m = tr.members["m%d" % e[2]]
         cl.faults.add(dict(api=e[3], client_id=m.name.encode(), nth=[0], after=tr.w.clock.seconds(),
                            action=dict(kind="silent", apply=False)))
+    elif kind == "leaderless":
+        # a partition without a leader for a while (an election in progress): metadata still lists it, with leader -1
+        _, _, topic, part, dur = e
+        if (topic, part) in cl.leaders and cl.leaders[(topic, part)] != -1:
+            old_leader = cl.leaders[(topic, part)]
+            cl.leaders[(topic, part)] = -1
+            tr.emit(None, "partition_leaderless", topic=topic, partition=part)
+            tr.w.clock.labelled(dur, "fault.leader_elected", cl.move_leader, topic, part, old_leader)
+    elif kind == "expanding":
+        # the topic is being expanded: for a while metadata answers carry LEADER_NOT_AVAILABLE for the topic and only
+        # some of its partitions (the full list is what the cluster really has)
+        _, _, topic, keep, dur = e
+        tr.quirks[topic] = (tr.w.clock.seconds() + dur, keep)
+        tr.emit(None, "topic_expanding", topic=topic, visible=keep)
     elif kind == "coordinator_failover":
         old = cl.coordinator_for(GROUP)
         new = e[2] if e[2] != old else [n for n in sorted(cl.brokers) if n != old][0]
